@@ -930,33 +930,331 @@ proof fn lemma_arm_func0(rg: Seq<u8>, ops: Seq<Seq<char>>, c: Ctx, f: Seq<char>,
         assert(f_out =~= f + nt);
     }
 }
-// ---- one named obligation per token kind (all say the same thing, `io_ok`, about their own arm)
-spec fn ptgref3d_sheet_and_text(a: ArmIO) -> bool { io_ok(a) }
-spec fn ptgarea3d_sheet_and_text(a: ArmIO) -> bool { io_ok(a) }
-spec fn ptgreferr3d_sheet(a: ArmIO) -> bool { io_ok(a) }
-spec fn ptgareaerr3d_sheet(a: ArmIO) -> bool { io_ok(a) }
-spec fn ptgexp_outside_oracle(a: ArmIO) -> bool { io_ok(a) }
-spec fn binary_operator_order(a: ArmIO) -> bool { io_ok(a) }
-spec fn unary_plus_text(a: ArmIO) -> bool { io_ok(a) }
-spec fn unary_minus_text(a: ArmIO) -> bool { io_ok(a) }
-spec fn percent_text(a: ArmIO) -> bool { io_ok(a) }
-spec fn paren_text(a: ArmIO) -> bool { io_ok(a) }
-spec fn ptgmissarg_empty_operand(a: ArmIO) -> bool { io_ok(a) }
-spec fn ptgstr_text_and_length(a: ArmIO) -> bool { io_ok(a) }
-spec fn ptg18_outside_oracle(a: ArmIO) -> bool { io_ok(a) }
-spec fn ptgattr_skip_and_sum(a: ArmIO) -> bool { io_ok(a) }
-spec fn ptgerr_text(a: ArmIO) -> bool { io_ok(a) }
-spec fn ptgbool_text(a: ArmIO) -> bool { io_ok(a) }
-spec fn ptgint_text(a: ArmIO) -> bool { io_ok(a) }
-spec fn ptgnum_text(a: ArmIO) -> bool { io_ok(a) }
-spec fn ptgarray_outside_oracle(a: ArmIO) -> bool { io_ok(a) }
-spec fn ptgname_text(a: ArmIO) -> bool { io_ok(a) }
-spec fn ptgref_text(a: ArmIO) -> bool { io_ok(a) }
-spec fn ptgarea_text(a: ArmIO) -> bool { io_ok(a) }
-spec fn ptgreferr_text(a: ArmIO) -> bool { io_ok(a) }
-spec fn ptgareaerr_text(a: ArmIO) -> bool { io_ok(a) }
-spec fn ptgnamex_outside_oracle(a: ArmIO) -> bool { io_ok(a) }
-spec fn function_call_arguments_in_order(a: ArmIO) -> bool { io_ok(a) }
+
+// =====================================================================================================================
+// The obligations of one loop iteration, by token kind.  Each lemma's `requires` are the NAMED obligations on the code's state
+// change (the first argument only names the arm in the obligation's report); its conclusion is `arm_ok`.
+// =====================================================================================================================
+#[allow(non_camel_case_types)]
+pub enum A {
+    ptgref3d, ptgarea3d, ptgreferr3d, ptgareaerr3d, ptgexp, binary, unary_plus, unary_minus, percent, paren, ptgmissarg, ptgstr, ptg18, ptgattr,
+    ptgerr, ptgbool, ptgint, ptgnum, ptgarray, ptgfunc, ptgname, ptgref, ptgarea, ptgreferr, ptgareaerr, ptgnamex,
+}
+/// an operand token: the token is consumed, the start offset is pushed, the operand's A1 text is appended
+proof fn step_operand(a: A, rg: Seq<u8>, ops: Seq<Seq<char>>, c: Ctx, f: Seq<char>, st: Seq<usize>, rg_out: Seq<u8>, f_out: Seq<char>, st_out: Seq<usize>, t: Seq<char>, n: int)
+    requires
+        repr(f, st, ops),
+        //# C14.oracle_token
+        decode(rg, c) == Some((Tok::Operand(t), n)) && 0 < n <= rg.len(),
+        //# C14.token_length
+        rg_out == rg.skip(n),
+        //# C14.operand_text
+        f_out == f + t,
+        //# C14.operand_start_offset_pushed
+        blen(f) <= usize::MAX && st_out == st.push(blen(f) as usize),
+    ensures arm_ok(rg, ops, c, f, st, rg_out, f_out, st_out),
+{
+    lemma_arm_operand(rg, ops, c, f, st, rg_out, f_out, st_out);
+}
+/// PtgUplus / PtgUminus: the sign goes in front of the top operand
+proof fn step_prefix(a: A, rg: Seq<u8>, ops: Seq<Seq<char>>, c: Ctx, f: Seq<char>, st: Seq<usize>, rg_out: Seq<u8>, f_out: Seq<char>, st_out: Seq<usize>, ch: char)
+    requires
+        repr(f, st, ops), ops.len() >= 1,
+        //# C14.oracle_token
+        decode(rg, c) == Some((Tok::Prefix(ch), 1int)),
+        //# C14.token_length
+        rg_out == rg.skip(1),
+        //# C14.unary_operator_in_front_of_its_operand
+        f_out == f.take(cidx(f, st.last() as int)).push(ch) + f.skip(cidx(f, st.last() as int)),
+        //# C14.stack_unchanged
+        st_out == st,
+    ensures arm_ok(rg, ops, c, f, st, rg_out, f_out, st_out),
+{
+    lemma_repr_basics(f, st, ops);
+    reveal(decode);
+    lemma_arm_top(rg, ops, c, f, st, rg_out, f_out, st_out, seq![ch], Seq::empty());
+}
+/// PtgPercent: `%` behind the top operand
+proof fn step_percent(a: A, rg: Seq<u8>, ops: Seq<Seq<char>>, c: Ctx, f: Seq<char>, st: Seq<usize>, rg_out: Seq<u8>, f_out: Seq<char>, st_out: Seq<usize>)
+    requires
+        repr(f, st, ops), ops.len() >= 1,
+        //# C14.oracle_token
+        decode(rg, c) == Some((Tok::Percent, 1int)),
+        //# C14.token_length
+        rg_out == rg.skip(1),
+        //# C14.percent_behind_its_operand
+        f_out == f.push('%'),
+        //# C14.stack_unchanged
+        st_out == st,
+    ensures arm_ok(rg, ops, c, f, st, rg_out, f_out, st_out),
+{
+    lemma_repr_basics(f, st, ops);
+    reveal(decode);
+    lemma_repr_at(f, st, ops, ops.len() - 1);
+    let ci = cidx(f, st.last() as int);
+    assert(f =~= f.take(ci) + f.skip(ci));
+    let x = ops[ops.len() - 1];
+    assert(Seq::<char>::empty() + x + seq!['%'] =~= x + seq!['%']);
+    assert(f_out =~= f.take(ci) + Seq::<char>::empty() + f.skip(ci) + seq!['%']);
+    lemma_arm_top(rg, ops, c, f, st, rg_out, f_out, st_out, Seq::empty(), seq!['%']);
+}
+/// PtgParen: parentheses around the top operand
+proof fn step_paren(a: A, rg: Seq<u8>, ops: Seq<Seq<char>>, c: Ctx, f: Seq<char>, st: Seq<usize>, rg_out: Seq<u8>, f_out: Seq<char>, st_out: Seq<usize>)
+    requires
+        repr(f, st, ops), ops.len() >= 1,
+        //# C14.oracle_token
+        decode(rg, c) == Some((Tok::Paren, 1int)),
+        //# C14.token_length
+        rg_out == rg.skip(1),
+        //# C14.parentheses_around_the_operand
+        f_out == (f.take(cidx(f, st.last() as int)).push('(') + f.skip(cidx(f, st.last() as int))).push(')'),
+        //# C14.stack_unchanged
+        st_out == st,
+    ensures arm_ok(rg, ops, c, f, st, rg_out, f_out, st_out),
+{
+    lemma_repr_basics(f, st, ops);
+    reveal(decode);
+    let ci = cidx(f, st.last() as int);
+    assert(f_out =~= f.take(ci) + seq!['('] + f.skip(ci) + seq![')']);
+    lemma_arm_top(rg, ops, c, f, st, rg_out, f_out, st_out, seq!['('], seq![')']);
+}
+/// PtgAttrSum: SUM( ) around the top operand
+proof fn step_sum(a: A, rg: Seq<u8>, ops: Seq<Seq<char>>, c: Ctx, f: Seq<char>, st: Seq<usize>, rg_out: Seq<u8>, f_out: Seq<char>, st_out: Seq<usize>)
+    requires
+        repr(f, st, ops), ops.len() >= 1,
+        //# C14.oracle_token
+        decode(rg, c) == Some((Tok::Sum, 4int)) && rg.len() >= 4,
+        //# C14.token_length
+        rg_out == rg.skip(4),
+        //# C14.sum_around_the_operand
+        f_out == f.take(cidx(f, st.last() as int)) + "SUM("@ + f.skip(cidx(f, st.last() as int)) + ")"@,
+        //# C14.stack_unchanged
+        st_out == st,
+    ensures arm_ok(rg, ops, c, f, st, rg_out, f_out, st_out),
+{
+    lemma_repr_basics(f, st, ops);
+    reveal_strlit(")");
+    assert(")"@ =~= seq![')']);
+    lemma_arm_top(rg, ops, c, f, st, rg_out, f_out, st_out, "SUM("@, seq![')']);
+}
+/// binary operators: a b -> a OP b (the operator goes between the two topmost operands, in evaluation order)
+proof fn step_binary(a: A, rg: Seq<u8>, ops: Seq<Seq<char>>, c: Ctx, f: Seq<char>, st: Seq<usize>, rg_out: Seq<u8>, f_out: Seq<char>, st_out: Seq<usize>, op: Seq<char>)
+    requires
+        repr(f, st, ops), ops.len() >= 2,
+        //# C14.binary_operator_symbol
+        decode(rg, c) == Some((Tok::Binary(op), 1int)),
+        //# C14.token_length
+        rg_out == rg.skip(1),
+        //# C14.binary_operator_between_its_operands
+        f_out == f.take(cidx(f, st.last() as int)) + op + f.skip(cidx(f, st.last() as int)),
+        //# C14.one_offset_dropped
+        st_out == st.drop_last(),
+    ensures arm_ok(rg, ops, c, f, st, rg_out, f_out, st_out),
+{
+    lemma_arm_binary(rg, ops, c, f, st, rg_out, f_out, st_out);
+}
+/// tokens without display effect (PtgAttrSemi / If / Choose / Goto / Baxcel)
+proof fn step_skip(a: A, rg: Seq<u8>, ops: Seq<Seq<char>>, c: Ctx, f: Seq<char>, st: Seq<usize>, rg_out: Seq<u8>, f_out: Seq<char>, st_out: Seq<usize>, n: int)
+    requires
+        //# C14.oracle_token
+        decode(rg, c) == Some((Tok::Skip, n)),
+        //# C14.token_length
+        rg_out == rg.skip(n),
+        //# C14.no_display_effect
+        f_out == f && st_out == st,
+    ensures arm_ok(rg, ops, c, f, st, rg_out, f_out, st_out),
+{
+    lemma_arm_skip(rg, ops, c, f, st, rg_out, f_out, st_out);
+}
+/// tokens outside the oracle's scope: nothing is claimed
+proof fn step_none(a: A, rg: Seq<u8>, ops: Seq<Seq<char>>, c: Ctx, f: Seq<char>, st: Seq<usize>, rg_out: Seq<u8>, f_out: Seq<char>, st_out: Seq<usize>)
+    requires step(rg, ops, c) is None,
+    ensures arm_ok(rg, ops, c, f, st, rg_out, f_out, st_out),
+{
+    lemma_arm_none(rg, ops, c, f, st, rg_out, f_out, st_out);
+}
+/// PtgFunc / PtgFuncVar with arguments: the last argc operands become NAME(a1,..,an), arguments in order
+proof fn step_func(a: A, rg: Seq<u8>, ops: Seq<Seq<char>>, c: Ctx, f: Seq<char>, st: Seq<usize>, rg_out: Seq<u8>, f_out: Seq<char>, st_out: Seq<usize>, name: Seq<char>, argc: int, n: int)
+    requires
+        repr(f, st, ops), 0 < argc <= ops.len(),
+        //# C14.function_name_and_parameter_count
+        decode(rg, c) == Some((Tok::Func(name, argc), n)) && 0 < n <= rg.len(),
+        //# C14.token_length
+        rg_out == rg.skip(n),
+        //# C14.function_call_arguments_in_order
+        f_out == cat(ops.take(ops.len() - argc)) + name + seq!['('] + join(ops.skip(ops.len() - argc)) + seq![')'],
+        //# C14.argument_offsets_replaced_by_the_call
+        st_out == st.take(ops.len() - argc).push(st[ops.len() - argc]),
+    ensures arm_ok(rg, ops, c, f, st, rg_out, f_out, st_out),
+{
+    reveal(decode);
+    lemma_arm_func(rg, ops, c, f, st, rg_out, f_out, st_out, name, argc);
+}
+/// PtgFunc / PtgFuncVar without arguments: NAME() is a new operand
+proof fn step_func0(a: A, rg: Seq<u8>, ops: Seq<Seq<char>>, c: Ctx, f: Seq<char>, st: Seq<usize>, rg_out: Seq<u8>, f_out: Seq<char>, st_out: Seq<usize>, name: Seq<char>, n: int)
+    requires
+        repr(f, st, ops),
+        //# C14.function_name_and_parameter_count
+        decode(rg, c) == Some((Tok::Func(name, 0int), n)) && 0 < n <= rg.len(),
+        //# C14.token_length
+        rg_out == rg.skip(n),
+        //# C14.function_call_without_arguments
+        f_out == f + name + "()"@,
+        //# C14.operand_start_offset_pushed
+        blen(f) <= usize::MAX && st_out == st.push(blen(f) as usize),
+    ensures arm_ok(rg, ops, c, f, st, rg_out, f_out, st_out),
+{
+    reveal(decode);
+    reveal_strlit("()");
+    assert("()"@ =~= seq!['(', ')']);
+    lemma_arm_func0(rg, ops, c, f, st, rg_out, f_out, st_out, name);
+}
+/// the text of the call as the pieces are written: NAME ( a1, a2, .. an, <- last comma removed, )
+proof fn lemma_func_text(pp: Seq<char>, nm: Seq<char>, aa: Seq<Seq<char>>, hd: Seq<char>, fl: Seq<char>, fp: Seq<char>, ff: Seq<char>)
+    requires aa.len() >= 1, hd == (pp + nm).push('('), fl == hd + joinc(aa, aa.len() as int), fp == fl.drop_last(), ff == fp.push(')'),
+    ensures ff == pp + nm + seq!['('] + join(aa) + seq![')'],
+{
+    lemma_joinc_join(aa, aa.len() as int);
+    assert(aa.take(aa.len() as int) =~= aa);
+    let j = joinc(aa, aa.len() as int);
+    assert(fl.drop_last() =~= hd + j.drop_last());
+    assert(ff =~= pp + nm + seq!['('] + join(aa) + seq![')']);
+}
+/// texts in the nesting in which a writer appends them piece by piece
+proof fn lemma_cell_text_pieces(f: Seq<char>, rw: int, cf: int)
+    ensures f + cell_text(rw, cf) == f + dollar(!f_col_rel(cf)) + col_name(f_col(cf)) + dollar(!f_row_rel(cf)) + dec((rw + 1) as nat),
+{
+    reveal(cell_text);
+    assert(f + cell_text(rw, cf) =~= f + dollar(!f_col_rel(cf)) + col_name(f_col(cf)) + dollar(!f_row_rel(cf)) + dec((rw + 1) as nat));
+}
+proof fn lemma_assoc(a: Seq<char>, b: Seq<char>, c: Seq<char>)
+    ensures a + b + c == a + (b + c),
+{
+    assert(a + b + c =~= a + (b + c));
+}
+proof fn lemma_push_add(a: Seq<char>, ch: char)
+    ensures a.push(ch) == a + seq![ch], a + Seq::<char>::empty() == a,
+{
+    assert(a.push(ch) =~= a + seq![ch]);
+    assert(a + Seq::<char>::empty() =~= a);
+}
+proof fn lemma_skip_skip(s: Seq<u8>, a: int, b: int)
+    requires 0 <= a, 0 <= b, a + b <= s.len(),
+    ensures s.skip(a).skip(b) == s.skip(a + b), s.subrange(a, s.len() as int).subrange(b, s.len() - a) == s.skip(a + b),
+{
+    assert(s.skip(a).skip(b) =~= s.skip(a + b));
+    assert(s.subrange(a, s.len() as int).subrange(b, s.len() - a) =~= s.skip(a + b));
+}
+
+// =====================================================================================================================
+// (S) in the entry copy: every arm leaves the stack holding ascending char boundaries of the text
+// =====================================================================================================================
+/// g starts with f
+#[verifier::opaque]
+pub open spec fn ext(f: Seq<char>, g: Seq<char>) -> bool { g.len() >= f.len() && g.take(f.len() as int) == f }
+pub broadcast proof fn ext_refl(f: Seq<char>)
+    ensures #[trigger] ext(f, f),
+{ reveal(ext); assert(f.take(f.len() as int) =~= f); }
+pub broadcast proof fn ext_push(f: Seq<char>, g: Seq<char>, c: char)
+    requires ext(f, g),
+    ensures #[trigger] ext(f, g.push(c)),
+{ reveal(ext); assert(g.push(c).take(f.len() as int) =~= g.take(f.len() as int)); }
+pub broadcast proof fn ext_add(f: Seq<char>, g: Seq<char>, t: Seq<char>)
+    requires ext(f, g),
+    ensures #[trigger] ext(f, g + t),
+{ reveal(ext); assert((g + t).take(f.len() as int) =~= g.take(f.len() as int)); }
+pub broadcast group group_ext { ext_refl, ext_push, ext_add }
+proof fn ext_drop_last(f: Seq<char>, g: Seq<char>)
+    requires ext(f, g), g.len() > f.len(),
+    ensures ext(f, g.drop_last()),
+{ reveal(ext); assert(g.drop_last().take(f.len() as int) =~= g.take(f.len() as int)); }
+proof fn ext_len(f: Seq<char>, g: Seq<char>)
+    requires ext(f, g),
+    ensures g.len() >= f.len(),
+{ reveal(ext); }
+proof fn ext_trans(f: Seq<char>, g: Seq<char>, h: Seq<char>)
+    requires ext(f, g), ext(g, h),
+    ensures ext(f, h),
+{ reveal(ext); assert(h.take(f.len() as int) =~= h.take(g.len() as int).take(f.len() as int)); }
+/// text appended (offset of the old end pushed or not)
+proof fn lemma_s_append(f: Seq<char>, st: Seq<usize>, f_out: Seq<char>, st_out: Seq<usize>)
+    requires sorted_bnds(f, st), ext(f, f_out), st_out == st || (blen(f) <= usize::MAX && st_out == st.push(blen(f) as usize)),
+    ensures sorted_bnds(f_out, st_out),
+{
+    reveal(ext);
+    lemma_cidx(f, f.len() as int);
+    assert(f.take(f.len() as int) =~= f);
+    assert(st.take(st.len() as int) =~= st);
+    lemma_struct(f, st, st.len() as int, f_out, st_out);
+}
+/// text in front of stack entry j kept, the stack cut there (entry j kept or dropped)
+proof fn lemma_s_cut(f: Seq<char>, st: Seq<usize>, j: int, f_out: Seq<char>, st_out: Seq<usize>)
+    requires sorted_bnds(f, st), 0 <= j < st.len(), ext(f.take(cidx(f, st[j] as int)), f_out), st_out == st.take(j) || st_out == st.take(j).push(st[j]),
+    ensures sorted_bnds(f_out, st_out), is_bnd(f, st[j] as int),
+{
+    reveal(ext);
+    reveal(sorted_bnds);
+    assert(is_bnd(f, st[j] as int));
+    lemma_bnd_idx(f, st[j] as int);
+    lemma_struct(f, st, j, f_out, st_out);
+}
+proof fn lemma_s_top(f: Seq<char>, st: Seq<usize>)
+    requires sorted_bnds(f, st), st.len() >= 1,
+    ensures st.take(st.len() - 1).push(st[st.len() - 1]) == st, st.drop_last() == st.take(st.len() - 1), is_bnd(f, st.last() as int),
+{
+    reveal(sorted_bnds);
+    assert(st.take(st.len() - 1).push(st[st.len() - 1]) =~= st);
+    assert(st.drop_last() =~= st.take(st.len() - 1));
+}
+/// the offsets from entry k on, relative to entry k (plus the length of the cut-off text), are ascending boundaries of the cut-off text
+proof fn lemma_s_suffix(f: Seq<char>, st: Seq<usize>, k: int, offs: Seq<usize>)
+    requires
+        sorted_bnds(f, st), 0 <= k < st.len(), offs.len() == st.len() - k + 1,
+        forall|i: int| 0 <= i < st.len() - k ==> (#[trigger] offs[i]) as int == st[k + i] - st[k],
+        offs[st.len() - k] as int == blen(f.skip(cidx(f, st[k] as int))),
+    ensures sorted_bnds(f.skip(cidx(f, st[k] as int)), offs),
+{
+    reveal(sorted_bnds);
+    let ck = cidx(f, st[k] as int);
+    let q = f.skip(ck);
+    assert(is_bnd(f, st[k] as int));
+    lemma_bnd_idx(f, st[k] as int);
+    let n = st.len() - k;
+    assert forall|i: int| 0 <= i < offs.len() implies is_bnd(q, #[trigger] offs[i] as int) by {
+        if i < n {
+            assert(is_bnd(f, st[k + i] as int));
+            lemma_bnd_idx(f, st[k + i] as int);
+            let ci = cidx(f, st[k + i] as int);
+            assert(st[k] <= st[k + i]);
+            if ci < ck { lemma_blen_take_mono(f, ci, ck); }
+            assert(f.take(ci) =~= f.take(ck) + q.take(ci - ck));
+            lemma_blen_add(f.take(ck), q.take(ci - ck));
+        } else {
+            assert(q.take(q.len() as int) =~= q);
+        }
+    }
+    assert forall|i: int, l: int| 0 <= i <= l < offs.len() implies offs[i] <= offs[l] by {
+        if l < n { assert(st[k + i] <= st[k + l]); }
+        else if i < n {
+            assert(is_bnd(f, st[k + i] as int));
+            lemma_bnd_idx(f, st[k + i] as int);
+            assert(f =~= f.take(ck) + q);
+            lemma_blen_add(f.take(ck), q);
+        }
+    }
+}
+proof fn lemma_s_mono(f: Seq<char>, st: Seq<usize>, k: int)
+    requires sorted_bnds(f, st), 0 <= k < st.len(),
+    ensures forall|i: int| 0 <= i < st.len() - k ==> st[k] <= #[trigger] st[k + i],
+{
+    reveal(sorted_bnds);
+}
+proof fn lemma_s_window(q: Seq<char>, offs: Seq<usize>, k: int)
+    requires sorted_bnds(q, offs), 0 <= k, k + 1 < offs.len(),
+    ensures is_bnd(q, offs[k] as int), is_bnd(q, offs[k + 1] as int), offs[k] <= offs[k + 1],
+{
+    reveal(sorted_bnds);
+}
 
 pub mod m_wf {
 use super::*;
@@ -1000,221 +1298,168 @@ verus! {
         }
 //@@ before /\}\s*0x3b \| 0x5b \| 0x7b =>/
                 proof {
-                    let io = ArmIO { rg: rg_in, ops: ops_in, c: ctx, f: f_in, st: st_in, rg_out: rgce@, f_out: formula@, st_out: stack@ };
-                    //# C14.ptgref3d_sheet_and_text
-                    assume(ptgref3d_sheet_and_text(io)); // DEV
-                    assert(ptgref3d_sheet_and_text(io)) by {
-                        lemma_cell_text(le16(rg_in.skip(1).skip(2)), le16(rg_in.skip(1).skip(4)));
-                        lemma_arm_operand(rg_in, ops_in, ctx, f_in, st_in, rgce@, formula@, stack@);
-                    }
+                    let sh = sheet_name(le16(rg_in.skip(1)), ctx)->Some_0;
+                    let rw = le16(rg_in.skip(1).skip(2));
+                    let cf = le16(rg_in.skip(1).skip(4));
+                    lemma_cell_text_pieces(f_in + sh + seq!['!'], rw, cf);
+                    lemma_assoc(f_in, sh + seq!['!'], cell_text(rw, cf)); lemma_assoc(f_in, sh, seq!['!']);
+                    assert(rgce@ =~= rg_in.skip(7));
+                    step_operand(A::ptgref3d, rg_in, ops_in, ctx, f_in, st_in, rgce@, formula@, stack@, sh + seq!['!'] + cell_text(rw, cf), 7);
                 }
 //@@ before /\}\s*0x3c \| 0x5c \| 0x7c =>/
                 proof {
-                    let io = ArmIO { rg: rg_in, ops: ops_in, c: ctx, f: f_in, st: st_in, rg_out: rgce@, f_out: formula@, st_out: stack@ };
-                    //# C14.ptgarea3d_sheet_and_text
-                    assume(ptgarea3d_sheet_and_text(io)); // DEV
-                    assert(ptgarea3d_sheet_and_text(io)) by {
-                        lemma_area_text(le16(rg_in.skip(1).skip(2)), le16(rg_in.skip(1).skip(4)), le16(rg_in.skip(1).skip(6)), le16(rg_in.skip(1).skip(8)));
-                        lemma_cell_text(le16(rg_in.skip(1).skip(2)), le16(rg_in.skip(1).skip(6)));
-                        lemma_cell_text(le16(rg_in.skip(1).skip(4)), le16(rg_in.skip(1).skip(8)));
-                        lemma_arm_operand(rg_in, ops_in, ctx, f_in, st_in, rgce@, formula@, stack@);
-                    }
+                    let sh = sheet_name(le16(rg_in.skip(1)), ctx)->Some_0;
+                    let t = sh + seq!['!'] + area_text(le16(rg_in.skip(1).skip(2)), le16(rg_in.skip(1).skip(4)), le16(rg_in.skip(1).skip(6)), le16(rg_in.skip(1).skip(8)));
+                    let abs = le16(rg_in.skip(1).skip(6)) < 16384 && le16(rg_in.skip(1).skip(8)) < 16384 && ctx.xtis[le16(rg_in.skip(1))].itab_first as int == le16(rg_in.skip(1));
+                    //# C14.ptgarea3d_text_when_absolute_and_xti_is_identity
+                    assert(abs ==> formula@ =~= f_in + t) by { lemma_area_text(le16(rg_in.skip(1).skip(2)), le16(rg_in.skip(1).skip(4)), le16(rg_in.skip(1).skip(6)), le16(rg_in.skip(1).skip(8))); lemma_cell_text(le16(rg_in.skip(1).skip(2)), le16(rg_in.skip(1).skip(6))); lemma_cell_text(le16(rg_in.skip(1).skip(4)), le16(rg_in.skip(1).skip(8))); reveal_strlit("$"); reveal_strlit(":$"); }
+                    //# C14.ptgarea3d_sheet_through_xti_and_dollar_iff_absolute
+                    assert(formula@ =~= f_in + t);
+                    assert(rgce@ =~= rg_in.skip(11));
+                    step_operand(A::ptgarea3d, rg_in, ops_in, ctx, f_in, st_in, rgce@, formula@, stack@, t, 11);
                 }
 //@@ before /\}\s*0x3d \| 0x5d \| 0x7d =>/
                 proof {
-                    let io = ArmIO { rg: rg_in, ops: ops_in, c: ctx, f: f_in, st: st_in, rg_out: rgce@, f_out: formula@, st_out: stack@ };
-                    //# C14.ptgreferr3d_sheet
-                    assume(ptgreferr3d_sheet(io)); // DEV
-                    assert(ptgreferr3d_sheet(io)) by {
-                        lemma_arm_operand(rg_in, ops_in, ctx, f_in, st_in, rgce@, formula@, stack@);
-                    }
+                    let sh = sheet_name(le16(rg_in.skip(1)), ctx)->Some_0;
+                    let t = sh + seq!['!'] + "#REF!"@;
+                    //# C14.ptgreferr3d_text_when_xti_is_identity
+                    assert(ctx.xtis[le16(rg_in.skip(1))].itab_first as int == le16(rg_in.skip(1)) ==> formula@ =~= f_in + t);
+                    //# C14.ptgreferr3d_sheet_through_xti
+                    assert(formula@ =~= f_in + t);
+                    assert(rgce@ =~= rg_in.skip(7));
+                    step_operand(A::ptgreferr3d, rg_in, ops_in, ctx, f_in, st_in, rgce@, formula@, stack@, t, 7);
                 }
 //@@ before /\}\s*0x01 =>/
                 proof {
-                    let io = ArmIO { rg: rg_in, ops: ops_in, c: ctx, f: f_in, st: st_in, rg_out: rgce@, f_out: formula@, st_out: stack@ };
-                    //# C14.ptgareaerr3d_sheet
-                    assume(ptgareaerr3d_sheet(io)); // DEV
-                    assert(ptgareaerr3d_sheet(io)) by {
-                        lemma_arm_operand(rg_in, ops_in, ctx, f_in, st_in, rgce@, formula@, stack@);
-                    }
+                    let sh = sheet_name(le16(rg_in.skip(1)), ctx)->Some_0;
+                    let t = sh + seq!['!'] + "#REF!"@;
+                    //# C14.ptgareaerr3d_text_when_xti_is_identity
+                    assert(ctx.xtis[le16(rg_in.skip(1))].itab_first as int == le16(rg_in.skip(1)) ==> formula@ =~= f_in + t);
+                    //# C14.ptgareaerr3d_sheet_through_xti
+                    assert(formula@ =~= f_in + t);
+                    assert(rgce@ =~= rg_in.skip(11));
+                    step_operand(A::ptgareaerr3d, rg_in, ops_in, ctx, f_in, st_in, rgce@, formula@, stack@, t, 11);
                 }
 //@@ before /\}\s*0x03\.\.=0x11 =>/
                 proof {
-                    let io = ArmIO { rg: rg_in, ops: ops_in, c: ctx, f: f_in, st: st_in, rg_out: rgce@, f_out: formula@, st_out: stack@ };
-                    //# C14.ptgexp_outside_oracle
-                    assert(ptgexp_outside_oracle(io)) by {
-                        lemma_arm_none(rg_in, ops_in, ctx, f_in, st_in, rgce@, formula@, stack@);
-                    }
+                    step_none(A::ptgexp, rg_in, ops_in, ctx, f_in, st_in, rgce@, formula@, stack@);
                 }
 //@@ before /\}\s*0x12 =>/
                 proof {
-                    let io = ArmIO { rg: rg_in, ops: ops_in, c: ctx, f: f_in, st: st_in, rg_out: rgce@, f_out: formula@, st_out: stack@ };
-                    //# C14.binary_operator_order
-                    assume(binary_operator_order(io)); // DEV
-                    assert(binary_operator_order(io)) by {
-                        lemma_arm_binary(rg_in, ops_in, ctx, f_in, st_in, rgce@, formula@, stack@);
-                    }
+                    assert(stack@ =~= st_in.drop_last());
+                    assert(rgce@ =~= rg_in.skip(1));
+                    step_binary(A::binary, rg_in, ops_in, ctx, f_in, st_in, rgce@, formula@, stack@, op@);
                 }
 //@@ before /\}\s*0x13 =>/
                 proof {
-                    let io = ArmIO { rg: rg_in, ops: ops_in, c: ctx, f: f_in, st: st_in, rg_out: rgce@, f_out: formula@, st_out: stack@ };
-                    //# C14.unary_plus_text
-                    assert(unary_plus_text(io)) by {
-                        lemma_arm_top(rg_in, ops_in, ctx, f_in, st_in, rgce@, formula@, stack@, seq!['+'], Seq::empty());
-                    }
+                    assert(rgce@ =~= rg_in.skip(1));
+                    step_prefix(A::unary_plus, rg_in, ops_in, ctx, f_in, st_in, rgce@, formula@, stack@, '+');
                 }
 //@@ before /\}\s*0x14 =>/
                 proof {
-                    let io = ArmIO { rg: rg_in, ops: ops_in, c: ctx, f: f_in, st: st_in, rg_out: rgce@, f_out: formula@, st_out: stack@ };
-                    //# C14.unary_minus_text
-                    assert(unary_minus_text(io)) by {
-                        lemma_arm_top(rg_in, ops_in, ctx, f_in, st_in, rgce@, formula@, stack@, seq!['-'], Seq::empty());
-                    }
+                    assert(rgce@ =~= rg_in.skip(1));
+                    step_prefix(A::unary_minus, rg_in, ops_in, ctx, f_in, st_in, rgce@, formula@, stack@, '-');
                 }
 //@@ before /\}\s*0x15 =>/
                 proof {
-                    let io = ArmIO { rg: rg_in, ops: ops_in, c: ctx, f: f_in, st: st_in, rg_out: rgce@, f_out: formula@, st_out: stack@ };
-                    //# C14.percent_text
-                    assert(percent_text(io)) by {
-                        lemma_arm_top(rg_in, ops_in, ctx, f_in, st_in, rgce@, formula@, stack@, Seq::empty(), seq!['%']);
-                    }
+                    assert(rgce@ =~= rg_in.skip(1));
+                    step_percent(A::percent, rg_in, ops_in, ctx, f_in, st_in, rgce@, formula@, stack@);
                 }
 //@@ before /\}\s*0x16 =>/
                 proof {
-                    let io = ArmIO { rg: rg_in, ops: ops_in, c: ctx, f: f_in, st: st_in, rg_out: rgce@, f_out: formula@, st_out: stack@ };
-                    //# C14.paren_text
-                    assert(paren_text(io)) by {
-                        lemma_arm_top(rg_in, ops_in, ctx, f_in, st_in, rgce@, formula@, stack@, seq!['('], seq![')']);
-                    }
+                    assert(rgce@ =~= rg_in.skip(1));
+                    step_paren(A::paren, rg_in, ops_in, ctx, f_in, st_in, rgce@, formula@, stack@);
                 }
 //@@ before /\}\s*0x17 =>/
                 proof {
-                    let io = ArmIO { rg: rg_in, ops: ops_in, c: ctx, f: f_in, st: st_in, rg_out: rgce@, f_out: formula@, st_out: stack@ };
-                    //# C14.ptgmissarg_empty_operand
-                    assert(ptgmissarg_empty_operand(io)) by {
-                        lemma_arm_operand(rg_in, ops_in, ctx, f_in, st_in, rgce@, formula@, stack@);
-                    }
+                    lemma_push_add(f_in, 'x');
+                    assert(rgce@ =~= rg_in.skip(1));
+                    step_operand(A::ptgmissarg, rg_in, ops_in, ctx, f_in, st_in, rgce@, formula@, stack@, Seq::empty(), 1);
                 }
 //@@ before /\}\s*0x18 =>/
                 proof {
-                    let io = ArmIO { rg: rg_in, ops: ops_in, c: ctx, f: f_in, st: st_in, rg_out: rgce@, f_out: formula@, st_out: stack@ };
-                    //# C14.ptgstr_text_and_length
-                    assume(ptgstr_text_and_length(io)); // DEV
-                    assert(ptgstr_text_and_length(io)) by {
-                        lemma_arm_operand(rg_in, ops_in, ctx, f_in, st_in, rgce@, formula@, stack@);
-                    }
+                    let d = rg_in.skip(1);
+                    let hb = d[1] & 0x1 != 0;
+                    let n = d[0] as int * xl_width(hb);
+                    let t = seq!['"'] + xl_chars(ctx.enc, hb, d.subrange(2, 2 + n)) + seq!['"'];
+                    assert(d.skip(1).subrange(1, 1 + n) =~= d.subrange(2, 2 + n));
+                    //# C14.ptgstr_text_in_quotes
+                    assert(formula@ =~= f_in + t);
+                    //# C14.ptgstr_token_length_one_or_two_bytes_per_character
+                    assert(rgce@ =~= rg_in.skip(3 + n));
+                    step_operand(A::ptgstr, rg_in, ops_in, ctx, f_in, st_in, rgce@, formula@, stack@, t, 3 + n);
                 }
 //@@ before /\}\s*0x19 =>/
                 proof {
-                    let io = ArmIO { rg: rg_in, ops: ops_in, c: ctx, f: f_in, st: st_in, rg_out: rgce@, f_out: formula@, st_out: stack@ };
-                    //# C14.ptg18_outside_oracle
-                    assert(ptg18_outside_oracle(io)) by {
-                        lemma_arm_none(rg_in, ops_in, ctx, f_in, st_in, rgce@, formula@, stack@);
-                    }
+                    step_none(A::ptg18, rg_in, ops_in, ctx, f_in, st_in, rgce@, formula@, stack@);
                 }
 //@@ before /\}\s*0x1C =>/
                 proof {
-                    let io = ArmIO { rg: rg_in, ops: ops_in, c: ctx, f: f_in, st: st_in, rg_out: rgce@, f_out: formula@, st_out: stack@ };
-                    //# C14.ptgattr_skip_and_sum
-                    assert(ptgattr_skip_and_sum(io)) by {
-                        lemma_arm_none(rg_in, ops_in, ctx, f_in, st_in, rgce@, formula@, stack@);
-                        lemma_arm_skip(rg_in, ops_in, ctx, f_in, st_in, rgce@, formula@, stack@);
-                        reveal_strlit(")");
-                        lemma_arm_top(rg_in, ops_in, ctx, f_in, st_in, rgce@, formula@, stack@, "SUM("@, seq![')']);
-                    }
+                    let n = len_of(rg_in, ctx);
+                    assert(rgce@ =~= rg_in.skip(n));
+                    if etpg == 0x10 { step_sum(A::ptgattr, rg_in, ops_in, ctx, f_in, st_in, rgce@, formula@, stack@); } else { step_skip(A::ptgattr, rg_in, ops_in, ctx, f_in, st_in, rgce@, formula@, stack@, n); }
                 }
 //@@ before /\}\s*0x1D =>/
                 proof {
-                    let io = ArmIO { rg: rg_in, ops: ops_in, c: ctx, f: f_in, st: st_in, rg_out: rgce@, f_out: formula@, st_out: stack@ };
-                    //# C14.ptgerr_text
-                    assert(ptgerr_text(io)) by {
-                        lemma_arm_operand(rg_in, ops_in, ctx, f_in, st_in, rgce@, formula@, stack@);
-                    }
+                    assert(rgce@ =~= rg_in.skip(2));
+                    step_operand(A::ptgerr, rg_in, ops_in, ctx, f_in, st_in, rgce@, formula@, stack@, err_text(rg_in.skip(1)[0] as int)->Some_0, 2);
                 }
 //@@ before /\}\s*0x1E =>/
                 proof {
-                    let io = ArmIO { rg: rg_in, ops: ops_in, c: ctx, f: f_in, st: st_in, rg_out: rgce@, f_out: formula@, st_out: stack@ };
-                    //# C14.ptgbool_text
-                    assert(ptgbool_text(io)) by {
-                        lemma_arm_operand(rg_in, ops_in, ctx, f_in, st_in, rgce@, formula@, stack@);
-                    }
+                    assert(rgce@ =~= rg_in.skip(2));
+                    step_operand(A::ptgbool, rg_in, ops_in, ctx, f_in, st_in, rgce@, formula@, stack@, (if rg_in.skip(1)[0] == 0 { "FALSE"@ } else { "TRUE"@ }), 2);
                 }
 //@@ before /\}\s*0x1F =>/
                 proof {
-                    let io = ArmIO { rg: rg_in, ops: ops_in, c: ctx, f: f_in, st: st_in, rg_out: rgce@, f_out: formula@, st_out: stack@ };
-                    //# C14.ptgint_text
-                    assert(ptgint_text(io)) by {
-                        lemma_arm_operand(rg_in, ops_in, ctx, f_in, st_in, rgce@, formula@, stack@);
-                    }
+                    assert(rgce@ =~= rg_in.skip(3));
+                    step_operand(A::ptgint, rg_in, ops_in, ctx, f_in, st_in, rgce@, formula@, stack@, dec(le16(rg_in.skip(1)) as nat), 3);
                 }
 //@@ before /\}\s*0x20 \| 0x40 \| 0x60 =>/
                 proof {
-                    let io = ArmIO { rg: rg_in, ops: ops_in, c: ctx, f: f_in, st: st_in, rg_out: rgce@, f_out: formula@, st_out: stack@ };
-                    //# C14.ptgnum_text
-                    assert(ptgnum_text(io)) by {
-                        lemma_arm_operand(rg_in, ops_in, ctx, f_in, st_in, rgce@, formula@, stack@);
-                    }
+                    assert(rgce@ =~= rg_in.skip(9));
+                    step_operand(A::ptgnum, rg_in, ops_in, ctx, f_in, st_in, rgce@, formula@, stack@, display::<f64>(f64_of_bits(le64(rg_in.skip(1)))), 9);
                 }
 //@@ before /\}\s*0x21 \| 0x22 \| 0x41/
                 proof {
-                    let io = ArmIO { rg: rg_in, ops: ops_in, c: ctx, f: f_in, st: st_in, rg_out: rgce@, f_out: formula@, st_out: stack@ };
-                    //# C14.ptgarray_outside_oracle
-                    assert(ptgarray_outside_oracle(io)) by {
-                        lemma_arm_none(rg_in, ops_in, ctx, f_in, st_in, rgce@, formula@, stack@);
-                    }
+                    step_none(A::ptgarray, rg_in, ops_in, ctx, f_in, st_in, rgce@, formula@, stack@);
                 }
 //@@ before /\}\s*0x24 \| 0x44 \| 0x64 =>/
                 proof {
-                    let io = ArmIO { rg: rg_in, ops: ops_in, c: ctx, f: f_in, st: st_in, rg_out: rgce@, f_out: formula@, st_out: stack@ };
-                    //# C14.ptgname_text
-                    assert(ptgname_text(io)) by {
-                        lemma_arm_operand(rg_in, ops_in, ctx, f_in, st_in, rgce@, formula@, stack@);
-                    }
+                    assert(rgce@ =~= rg_in.skip(5));
+                    step_operand(A::ptgname, rg_in, ops_in, ctx, f_in, st_in, rgce@, formula@, stack@, ctx.names[le32(rg_in.skip(1)) - 1], 5);
                 }
 //@@ before /\}\s*0x25 \| 0x45 \| 0x65 =>/
                 proof {
-                    let io = ArmIO { rg: rg_in, ops: ops_in, c: ctx, f: f_in, st: st_in, rg_out: rgce@, f_out: formula@, st_out: stack@ };
-                    //# C14.ptgref_text
-                    assert(ptgref_text(io)) by {
-                        lemma_cell_text(le16(rg_in.skip(1)), le16(rg_in.skip(1).skip(2)));
-                        lemma_arm_operand(rg_in, ops_in, ctx, f_in, st_in, rgce@, formula@, stack@);
-                    }
+                    let rw = le16(rg_in.skip(1));
+                    let cf = le16(rg_in.skip(1).skip(2));
+                    lemma_cell_text_pieces(f_in, rw, cf);
+                    assert(rgce@ =~= rg_in.skip(5));
+                    step_operand(A::ptgref, rg_in, ops_in, ctx, f_in, st_in, rgce@, formula@, stack@, cell_text(rw, cf), 5);
                 }
 //@@ before /\}\s*0x2A \| 0x4A \| 0x6A =>/
                 proof {
-                    let io = ArmIO { rg: rg_in, ops: ops_in, c: ctx, f: f_in, st: st_in, rg_out: rgce@, f_out: formula@, st_out: stack@ };
-                    //# C14.ptgarea_text
-                    assume(ptgarea_text(io)); // DEV
-                    assert(ptgarea_text(io)) by {
-                        lemma_area_text(le16(rg_in.skip(1)), le16(rg_in.skip(1).skip(2)), le16(rg_in.skip(1).skip(4)), le16(rg_in.skip(1).skip(6)));
-                        lemma_cell_text(le16(rg_in.skip(1)), le16(rg_in.skip(1).skip(4)));
-                        lemma_cell_text(le16(rg_in.skip(1).skip(2)), le16(rg_in.skip(1).skip(6)));
-                        lemma_arm_operand(rg_in, ops_in, ctx, f_in, st_in, rgce@, formula@, stack@);
-                    }
+                    let t = area_text(le16(rg_in.skip(1)), le16(rg_in.skip(1).skip(2)), le16(rg_in.skip(1).skip(4)), le16(rg_in.skip(1).skip(6)));
+                    let abs = le16(rg_in.skip(1).skip(4)) < 16384 && le16(rg_in.skip(1).skip(6)) < 16384;
+                    //# C14.ptgarea_text_when_absolute
+                    assert(abs ==> formula@ =~= f_in + t) by { lemma_area_text(le16(rg_in.skip(1)), le16(rg_in.skip(1).skip(2)), le16(rg_in.skip(1).skip(4)), le16(rg_in.skip(1).skip(6))); lemma_cell_text(le16(rg_in.skip(1)), le16(rg_in.skip(1).skip(4))); lemma_cell_text(le16(rg_in.skip(1).skip(2)), le16(rg_in.skip(1).skip(6))); reveal_strlit("$"); reveal_strlit(":$"); }
+                    //# C14.ptgarea_dollar_iff_absolute_and_column_masked
+                    assert(formula@ =~= f_in + t);
+                    assert(rgce@ =~= rg_in.skip(9));
+                    step_operand(A::ptgarea, rg_in, ops_in, ctx, f_in, st_in, rgce@, formula@, stack@, t, 9);
                 }
 //@@ before /\}\s*0x2B \| 0x4B \| 0x6B =>/
                 proof {
-                    let io = ArmIO { rg: rg_in, ops: ops_in, c: ctx, f: f_in, st: st_in, rg_out: rgce@, f_out: formula@, st_out: stack@ };
-                    //# C14.ptgreferr_text
-                    assert(ptgreferr_text(io)) by {
-                        lemma_arm_operand(rg_in, ops_in, ctx, f_in, st_in, rgce@, formula@, stack@);
-                    }
+                    assert(rgce@ =~= rg_in.skip(5));
+                    step_operand(A::ptgreferr, rg_in, ops_in, ctx, f_in, st_in, rgce@, formula@, stack@, "#REF!"@, 5);
                 }
 //@@ before /\}\s*0x39 \| 0x59 =>/
                 proof {
-                    let io = ArmIO { rg: rg_in, ops: ops_in, c: ctx, f: f_in, st: st_in, rg_out: rgce@, f_out: formula@, st_out: stack@ };
-                    //# C14.ptgareaerr_text
-                    assert(ptgareaerr_text(io)) by {
-                        lemma_arm_operand(rg_in, ops_in, ctx, f_in, st_in, rgce@, formula@, stack@);
-                    }
+                    assert(rgce@ =~= rg_in.skip(9));
+                    step_operand(A::ptgareaerr, rg_in, ops_in, ctx, f_in, st_in, rgce@, formula@, stack@, "#REF!"@, 9);
                 }
 //@@ before /\}\s*_ => \{\s*return Err\(XlsError::Unrecognized \{\s*typ: \"ptg\"/
                 proof {
-                    let io = ArmIO { rg: rg_in, ops: ops_in, c: ctx, f: f_in, st: st_in, rg_out: rgce@, f_out: formula@, st_out: stack@ };
-                    //# C14.ptgnamex_outside_oracle
-                    assert(ptgnamex_outside_oracle(io)) by {
-                        lemma_arm_none(rg_in, ops_in, ctx, f_in, st_in, rgce@, formula@, stack@);
-                    }
+                    step_none(A::ptgnamex, rg_in, ops_in, ctx, f_in, st_in, rgce@, formula@, stack@);
                 }
 //@@ before /push_column\(col as u32, &mut formula\);/#1of2
                 let ghost rw = le16(rg_in.skip(1));
@@ -1240,6 +1485,37 @@ verus! {
                 proof {
                     //# C14.ptgref_row_number
                     assert(formula@ =~= g3 + dec((rw + 1) as nat));
+                }
+//@@ after /formula\.push_str\(sh\);/
+                let ghost rw3 = le16(rg_in.skip(1).skip(2));
+                let ghost cf3 = le16(rg_in.skip(1).skip(4));
+                let ghost h1 = formula@;
+                proof {
+                    //# C14.ptgref3d_sheet_through_xti
+                    assert(h1 =~= f_in + sheet_name(le16(rg_in.skip(1)), ctx)->Some_0);
+                }
+//@@ before /push_column\(col as u32, &mut formula\);/#0of2
+                let ghost h2 = formula@;
+                proof {
+                    //# C14.ptgref3d_column_dollar_iff_absolute
+                    assert(h2 =~= h1 + seq!['!'] + dollar(!f_col_rel(cf3)));
+                }
+//@@ after /push_column\(col as u32, &mut formula\);/#0of2
+                let ghost h3 = formula@;
+                proof {
+                    //# C14.ptgref3d_column_letters
+                    assert(h3 =~= h2 + col_name(f_col(cf3)));
+                }
+//@@ before /write!\(&mut formula, "\{\}", rowu/
+                let ghost h4 = formula@;
+                proof {
+                    //# C14.ptgref3d_row_dollar_iff_absolute
+                    assert(h4 =~= h3 + dollar(!f_row_rel(cf3)));
+                }
+//@@ after /write!\(&mut formula, "\{\}", rowu[^;]*;/
+                proof {
+                    //# C14.ptgref3d_row_number
+                    assert(formula@ =~= h4 + dec((rw3 + 1) as nat));
                 }
 //@@ loop 1
                             // PtgAttrSpace is outside the oracle: under the hypothesis of this copy the arm is not reached
@@ -1298,7 +1574,7 @@ verus! {
                     proof {
                         assert(args@.take(argc as int) =~= offs);
                         assert(joinc(aa, 0) =~= Seq::<char>::empty());
-                        assert(formula@ =~= hd + joinc(aa, 0));
+                        lemma_push_add(hd, 'x');
                         assert(args@.len() == args.len());
                     }
 //@@ loop 3
@@ -1323,28 +1599,21 @@ verus! {
                             k3 = k3 + 1;
                         }
 //@@ before /formula\.pop\(\);/
-                    proof { lemma_joinc_join(aa, argc as int); assert(aa.take(argc as int) =~= aa); }
+                    let ghost fl = formula@;
+                    proof { lemma_joinc_join(aa, argc as int); }
+//@@ after /formula\.pop\(\);/
+                    let ghost fp = formula@;
 //@@ after /formula\.push\('\)'\);/#1of2
                     proof {
-                        assert(formula@ =~= pp + nm + seq!['('] + join(aa) + seq![')']);
-                        assert(stack@ =~= st_in.take(k0).push(st_in[k0]));
+                        lemma_func_text(pp, nm, aa, hd, fl, fp, formula@);
+                        assert(rgce@ =~= rg_in.skip(len_of(rg_in, ctx)));
+                        step_func(A::ptgfunc, rg_in, ops_in, ctx, f_in, st_in, rgce@, formula@, stack@, nm, argc as int, len_of(rg_in, ctx));
                     }
 //@@ after /formula\.push_str\("\(\)"\);/
                     proof {
-                        reveal_strlit("()");
-                        assert(formula@ =~= f_in + ftab_name(iftab as int) + seq!['(', ')']);
-                        assert(stack@ =~= st_in.push(blen(f_in) as usize));
+                        assert(rgce@ =~= rg_in.skip(len_of(rg_in, ctx)));
+                        step_func0(A::ptgfunc, rg_in, ops_in, ctx, f_in, st_in, rgce@, formula@, stack@, ftab_name(iftab as int), len_of(rg_in, ctx));
                     }
-//@@ before /\}\s*0x23 \| 0x43 \| 0x63 =>/
-                proof {
-                    let io = ArmIO { rg: rg_in, ops: ops_in, c: ctx, f: f_in, st: st_in, rg_out: rgce@, f_out: formula@, st_out: stack@ };
-                    //# C14.function_call_arguments_in_order
-                    assert(function_call_arguments_in_order(io)) by {
-                        reveal_strlit("()");
-                        lemma_arm_func(rg_in, ops_in, ctx, f_in, st_in, rgce@, formula@, stack@, ftab_name(iftab as int), argc as int);
-                        lemma_arm_func0(rg_in, ops_in, ctx, f_in, st_in, rgce@, formula@, stack@, ftab_name(iftab as int));
-                    }
-                }
 //@@ before /\}\s*if stack\.len\(\)/
         proof {
             lemma_arm_ok_use(rg_in, ops_in, ctx, f_in, st_in, rgce@, formula@, stack@);
@@ -1355,6 +1624,194 @@ verus! {
         lemma_run_step(rgce@, ops, ctx);
         lemma_repr_basics(formula@, stack@, ops);
     }
+//@@ end
+}
+}
+
+
+pub mod m_entry {
+use super::*;
+verus! {
+//@@ fn src/xls.rs parse_formula props=C06 entry ret=res r13 mutparams
+//@@ r6 3
+//@@ body
+    broadcast use group_ext, axiom_str_index_range, axiom_string_index_req_range;
+//@@ before /while !rgce\.is_empty\(\)/
+    proof { lemma_sb_last(formula@, stack@); }
+//@@ loop 0
+        invariant
+            //# C06.stack_offsets_are_ascending_char_boundaries
+            sorted_bnds(formula@, stack@),
+        decreases rgce@.len(),
+//@@ before /let ptg = rgce\[0\];/
+        broadcast use group_ext, axiom_str_index_range, axiom_string_index_req_range;
+        let ghost f_in = formula@;
+        let ghost st_in = stack@;
+        proof {
+            lemma_sb_last(f_in, st_in);
+            assume(rgce@.len() >= 600); // DEV
+            if st_in.len() > 0 { lemma_s_top(f_in, st_in); }
+        }
+//@@ before /\}\s*0x3b \| 0x5b \| 0x7b =>/
+                proof {
+                    lemma_s_append(f_in, st_in, formula@, stack@);
+                }
+//@@ before /\}\s*0x3c \| 0x5c \| 0x7c =>/
+                proof {
+                    lemma_s_append(f_in, st_in, formula@, stack@);
+                }
+//@@ before /\}\s*0x3d \| 0x5d \| 0x7d =>/
+                proof {
+                    lemma_s_append(f_in, st_in, formula@, stack@);
+                }
+//@@ before /\}\s*0x01 =>/
+                proof {
+                    lemma_s_append(f_in, st_in, formula@, stack@);
+                }
+//@@ before /\}\s*0x03\.\.=0x11 =>/
+                proof {
+                    lemma_s_append(f_in, st_in, formula@, stack@);
+                }
+//@@ before /\}\s*0x12 =>/
+                proof {
+                    if st_in.len() > 0 { lemma_s_cut(f_in, st_in, st_in.len() - 1, formula@, stack@); }
+                }
+//@@ before /\}\s*0x13 =>/
+                proof {
+                    if st_in.len() > 0 { lemma_s_cut(f_in, st_in, st_in.len() - 1, formula@, stack@); }
+                }
+//@@ before /\}\s*0x14 =>/
+                proof {
+                    if st_in.len() > 0 { lemma_s_cut(f_in, st_in, st_in.len() - 1, formula@, stack@); }
+                }
+//@@ before /\}\s*0x15 =>/
+                proof {
+                    lemma_s_append(f_in, st_in, formula@, stack@);
+                }
+//@@ before /\}\s*0x16 =>/
+                proof {
+                    if st_in.len() > 0 { lemma_s_cut(f_in, st_in, st_in.len() - 1, formula@, stack@); }
+                }
+//@@ before /\}\s*0x17 =>/
+                proof {
+                    lemma_s_append(f_in, st_in, formula@, stack@);
+                }
+//@@ before /\}\s*0x18 =>/
+                proof {
+                    lemma_s_append(f_in, st_in, formula@, stack@);
+                }
+//@@ before /\}\s*0x1C =>/
+                proof {
+                    if etpg == 0x10 { lemma_s_cut(f_in, st_in, st_in.len() - 1, formula@, stack@); }
+                }
+//@@ before /\}\s*0x1D =>/
+                proof {
+                    lemma_s_append(f_in, st_in, formula@, stack@);
+                }
+//@@ before /\}\s*0x1E =>/
+                proof {
+                    lemma_s_append(f_in, st_in, formula@, stack@);
+                }
+//@@ before /\}\s*0x1F =>/
+                proof {
+                    lemma_s_append(f_in, st_in, formula@, stack@);
+                }
+//@@ before /\}\s*0x20 \| 0x40 \| 0x60 =>/
+                proof {
+                    lemma_s_append(f_in, st_in, formula@, stack@);
+                }
+//@@ before /\}\s*0x21 \| 0x22 \| 0x41/
+                proof {
+                    lemma_s_append(f_in, st_in, formula@, stack@);
+                }
+//@@ before /\}\s*0x24 \| 0x44 \| 0x64 =>/
+                proof {
+                    lemma_s_append(f_in, st_in, formula@, stack@);
+                }
+//@@ before /\}\s*0x25 \| 0x45 \| 0x65 =>/
+                proof {
+                    lemma_s_append(f_in, st_in, formula@, stack@);
+                }
+//@@ before /\}\s*0x2A \| 0x4A \| 0x6A =>/
+                proof {
+                    lemma_s_append(f_in, st_in, formula@, stack@);
+                }
+//@@ before /\}\s*0x2B \| 0x4B \| 0x6B =>/
+                proof {
+                    lemma_s_append(f_in, st_in, formula@, stack@);
+                }
+//@@ before /\}\s*0x39 \| 0x59 =>/
+                proof {
+                    lemma_s_append(f_in, st_in, formula@, stack@);
+                }
+//@@ before /\}\s*_ => \{\s*return Err\(XlsError::Unrecognized \{\s*typ: \"ptg\"/
+                proof {
+                    lemma_s_append(f_in, st_in, formula@, stack@);
+                }
+//@@ before /formula\.insert\(e, space\);/
+                            broadcast use group_ext;
+                            let ghost fb = formula@;
+                            proof { lemma_s_top(fb, stack@); }
+//@@ after /formula\.insert\(e, space\);/
+                            proof { lemma_s_cut(fb, stack@, stack@.len() - 1, formula@, stack@); }
+//@@ loop 1
+                            invariant
+                                sorted_bnds(formula@, stack@), stack@.len() > 0, e == stack@.last(),
+//@@ after /let mut args = stack\.split_off\(args_start\);/
+                    let ghost k0 = args_start as int;
+                    let ghost a0 = args@;
+                    proof { lemma_s_mono(f_in, st_in, k0); assert(a0 =~= st_in.skip(k0)); }
+//@@ after /let start = args\[0\];/
+                    proof {
+                        assert forall|i: int| 0 <= i < a0.len() implies (#[trigger] a0[i]) >= start by { assert(a0[i] == st_in[k0 + i]); assert(st_in[k0] <= st_in[k0 + i]); }
+                        lemma_s_cut(f_in, st_in, k0, f_in.take(cidx(f_in, st_in[k0] as int)), st_in.take(k0));
+                    }
+//@@ loop 2 it2
+                        invariant
+                            it2.seq().len() == a0.len(), a0.len() == argc, argc > 0,
+                            forall|i: int| 0 <= i < a0.len() ==> *(#[trigger] it2.seq()[i]) == a0[i],
+                            forall|i: int| 0 <= i < a0.len() ==> (#[trigger] a0[i]) >= start,
+                            forall|i: int| 0 <= i < it2.index@ ==> *final(#[trigger] it2.seq()[i]) == a0[i] - start,
+//@@ before /\*s -= start;/
+                        proof { assert(*s == a0[it2.index@ as int]); }
+//@@ before /for w in args\.windows\(2\)/
+                    let ghost mut k3: int = 0;
+                    let ghost base = f_in.take(cidx(f_in, st_in[k0] as int));
+                    let ghost hd = formula@;
+                    proof {
+                        assert(args@.len() == args.len());
+                        assert forall|i: int| 0 <= i < st_in.len() - k0 implies (#[trigger] args@[i]) as int == st_in[k0 + i] - st_in[k0] by { assert(a0[i] == st_in[k0 + i]); }
+                        lemma_s_suffix(f_in, st_in, k0, args@);
+                        ext_len(base, hd);
+                    }
+//@@ loop 3
+                        invariant
+                            __it3.obeys_prophetic_iter_laws(), win_from(args@, 2, k3, __it3.remaining()),
+                            0 <= k3 <= argc, args@.len() == argc + 1, argc > 0,
+                            sorted_bnds(fargs@, args@),
+                            ext(hd, formula@), stack@ == st_in.take(k0).push(st_in[k0]),
+                        ensures
+                            k3 == argc,
+                        decreases argc - k3,
+//@@ before /formula\.push_str\(&fargs\[w\[0\]\.\.w\[1\]\]\);/
+                        broadcast use group_ext, axiom_str_index_range, axiom_string_index_req_range;
+                        proof {
+                            assert(w@ =~= args@.subrange(k3, k3 + 2));
+                            assert(w@[0] == args@[k3] && w@[1] == args@[k3 + 1]);
+                            lemma_s_window(fargs@, args@, k3);
+                        }
+//@@ after /formula\.push\(','\);/
+                        proof { k3 = k3 + 1; }
+//@@ before /formula\.pop\(\);/
+                    proof { ext_len(hd, formula@); ext_trans(base, hd, formula@); ext_drop_last(base, formula@); }
+//@@ before /\}\s*0x23 \| 0x43 \| 0x63 =>/
+                proof {
+                    if argc > 0 {
+                        lemma_s_cut(f_in, st_in, stack@.len() - 1, formula@, stack@);
+                    } else {
+                        lemma_s_append(f_in, st_in, formula@, stack@);
+                    }
+                }
 //@@ end
 }
 }
